@@ -103,6 +103,9 @@ impl World {
         let msgs = group(&frames);
         let mut used = 0;
         let mut out = vec![200];
+        // maximal runs of Rejected messages are compared sorted by port (the helper tasks that refuse requests
+        // dropped together run in no particular order)
+        let mut run: Vec<(u32, Vec<u128>)> = Vec::new();
         for m in &msgs {
             used += m.frames;
             let renamed = match &m.msg {
@@ -139,11 +142,26 @@ impl World {
                     v
                 }
                 MultiplexMsg::PortCredits { .. } | MultiplexMsg::Ping => continue,
+                MultiplexMsg::Rejected { client_port, .. } => {
+                    let mut v = msg_to_nums(&m.msg);
+                    v.push(0);
+                    v.push(201);
+                    run.push((*client_port, v));
+                    continue;
+                }
                 other => msg_to_nums(other),
             };
+            run.sort_by_key(|x| x.0);
+            for (_, v) in run.drain(..) {
+                out.extend(v);
+            }
             out.extend(renamed);
             out.push(m.payload.as_ref().map(|p| p.len() as u128).unwrap_or(0));
             out.push(201);
+        }
+        run.sort_by_key(|x| x.0);
+        for (_, v) in run.drain(..) {
+            out.extend(v);
         }
         self.seen += used;
         out.extend([202, self.status]);
@@ -606,6 +624,7 @@ pub fn gen(r: &mut Rng, i: usize) -> Vec<Vec<u128>> {
     let mut ports: Vec<PortShadow> = Vec::new();
     let mut connecting: Vec<u128> = Vec::new(); // canonical numbers of pending local connects
     let mut queued: Vec<u32> = Vec::new(); // remote ports of requests in the listener queue
+    let mut queued_wait = true; // their kind
     let mut held: Vec<u32> = Vec::new();
     let mut next_remote: u32 = 10;
     let mut clients = true;
@@ -637,7 +656,12 @@ pub fn gen(r: &mut Rng, i: usize) -> Vec<Vec<u128>> {
                 // the peer opens a port
                 let q = next_remote;
                 next_remote += 1;
-                push_msg(&mut v, 0, &MultiplexMsg::OpenPort { client_port: q, wait: true, id: if ver >= 3 { Some(q) } else { None } });
+                // (both kinds of request: the listener has one queue for each)
+                // both kinds of request occur, but only one kind is queued at a time: the listener has one queue per kind and
+                // picks between them in no particular order
+                let w = if queued.is_empty() { r.chance(2, 3) } else { queued_wait };
+                queued_wait = w;
+                push_msg(&mut v, 0, &MultiplexMsg::OpenPort { client_port: q, wait: w, id: if ver >= 3 { Some(q) } else { None } });
                 if listener {
                     queued.push(q);
                 }
@@ -770,7 +794,9 @@ pub fn gen(r: &mut Rng, i: usize) -> Vec<Vec<u128>> {
                     5 => push_op(&mut v, 20, &[0, 12, local]),
                     6 => push_op(&mut v, 20, &[0, 9, local, *r.pick(&[0u128, 1, 4294967295])]),
                     7 if !peer_clientfin => {
-                        push_op(&mut v, 20, &[0, 4, rp, 1, 1, rp]);
+                        let w = if queued.is_empty() { r.chance(1, 2) } else { queued_wait };
+                        queued_wait = w;
+                        push_op(&mut v, 20, &[0, 4, rp, w as u128, 1, rp]);
                         if listener {
                             queued.push(rp as u32);
                         }
